@@ -374,8 +374,8 @@ def run(F, R, tier):
                     one = o["k"] == "const" and o.get("val") == 1
         R.check(one, "C11.R4", "C11.R4:%s:first-count-is-1" % fr["id"], "%s:%s" % (fr["file"], fr["line"]), "a new summary entry starts with count = 1")
 
-    # ------------------------------------------------------------------ R5 [T]
-    if tier == "thorough":
+    # ------------------------------------------------------------------ R5
+    if True:
         found = False
         for fid, fn in F.fns.items():
             if "proxy_agent_status" not in fid or fn["crate"] != "azure_proxy_agent":
@@ -386,7 +386,10 @@ def run(F, R, tier):
                     if s["k"] == "assign" and s["rv"]["k"] == "agg" and "failedAuthenticateSummary" in (s["rv"].get("fields") or []):
                         i = s["rv"]["fields"].index("failedAuthenticateSummary")
                         org = B.origins(s["rv"]["ops"][i])
-                        ok = any(o[0] == "call" and q.ends(o[1], "get_all_failed_connection_summary") for o in org)
+                        # read afresh from the status actor for every publication: no remembered copy (a field of the task, a cache)
+                        ok = any(o[0] == "call" and q.ends(o[1], "get_all_failed_connection_summary") for o in org) and \
+                            all((o[0] == "call" and q.ends(o[1], "get_all_failed_connection_summary", "Vec::new", "Default::default")) or o[0] in ("agg", "const", "promoted")
+                                for o in org)
                         found = True
                         R.check(ok, "C11.R5", R.key("C11.R5", fid, "publication"), "%s:%s" % (fn["file"], s["line"]),
                                 "failedAuthenticateSummary of the aggregate status = get_all_failed_connection_summary()",
